@@ -39,6 +39,12 @@ type Poison struct{ why string }
 
 type UPtr struct{ v Value } // unsafe.Pointer wrapper
 
+// SymPtr is the address of arr[idx] for a symbolic, in-range idx over scalar elements.
+type SymPtr struct {
+	arr []Value
+	idx *T
+}
+
 type Map struct {
 	keys  []Value
 	vals  []Value
